@@ -11,7 +11,7 @@ use winter_crypto::hashers::{Blake3_256, Rp62_248, Rp64_256, RpJive64_256, Sha3_
 use winter_crypto::{BatchMerkleProof, ElementHasher, MerkleTree};
 use winter_math::fields::{f128, f62, f64 as f64m, CubeExtension, QuadExtension};
 use winter_math::FieldElement;
-use winter_utils::Serializable;
+use winter_utils::{Deserializable, Serializable};
 use winterfell::AcceptableOptions;
 
 use crate::pool::{make, Honest};
@@ -351,6 +351,77 @@ where
                 let mut p = orig.clone();
                 p.trace_queries[0] = rebuild_queries::<B, H>(BatchMerkleProof::<H> { nodes, depth: mp.depth }, rows);
                 judge::<B, E, H>(cx, "field:opening-node-vectors-swapped", &p.to_bytes());
+            }
+        }
+    }
+    // one more unique query claimed and one more (copied or arbitrary) row appended to the values
+    // of every Queries object, openings untouched: the parsed tables differ from the original's
+    if nq < 255 {
+        for arbitrary in [false, true] {
+            let mut p = orig.clone();
+            p.num_unique_queries += 1;
+            let mut ok = true;
+            match open_queries::<B, H>(&orig.trace_queries[0], lde_n, nq, ti.main_trace_width()) {
+                Ok((mp, mut rows)) => {
+                    let mut r = rows[rng.usize(rows.len())].clone();
+                    if arbitrary {
+                        r[0] += B::ONE;
+                    }
+                    rows.push(r);
+                    p.trace_queries[0] = rebuild_queries::<B, H>(mp, rows);
+                },
+                Err(_) => ok = false,
+            }
+            if orig.trace_queries.len() > 1 {
+                match open_queries::<E, H>(&orig.trace_queries[1], lde_n, nq, ti.aux_segment_width()) {
+                    Ok((mp, mut rows)) => {
+                        let mut r = rows[rng.usize(rows.len())].clone();
+                        if arbitrary {
+                            r[0] += E::ONE;
+                        }
+                        rows.push(r);
+                        p.trace_queries[1] = rebuild_queries::<E, H>(mp, rows);
+                    },
+                    Err(_) => ok = false,
+                }
+            }
+            match open_queries::<E, H>(&orig.constraint_queries, lde_n, nq, air.context().num_constraint_composition_columns()) {
+                Ok((mp, mut rows)) => {
+                    let mut r = rows[rng.usize(rows.len())].clone();
+                    if arbitrary {
+                        r[0] += E::ONE;
+                    }
+                    rows.push(r);
+                    p.constraint_queries = rebuild_queries::<E, H>(mp, rows);
+                },
+                Err(_) => ok = false,
+            }
+            if ok {
+                judge::<B, E, H>(cx, if arbitrary { "field:extra-opened-row-arbitrary" } else { "field:extra-opened-row-copied" }, &p.to_bytes());
+            } else {
+                cx.rep.count("extra-opened-row:queries-did-not-open (harness)");
+            }
+        }
+    }
+    // one more row appended to the query values of a FRI layer (length prefix consistent, opening
+    // untouched)
+    {
+        let fb = orig.fri_proof.to_bytes();
+        let lay = crate::frih::layout(&fb);
+        let row = opts.to_fri_options().folding_factor() * E::ELEMENT_BYTES;
+        for (depth, &(vat, vl, _, _)) in lay.layers.iter().enumerate().take(2) {
+            if vl < row {
+                continue;
+            }
+            let mut b = fb[..vat - 4].to_vec();
+            b.extend_from_slice(&((vl + row) as u32).to_le_bytes());
+            b.extend_from_slice(&fb[vat..vat + vl]);
+            b.extend_from_slice(&fb[vat..vat + row]); // a copy of the first row
+            b.extend_from_slice(&fb[vat + vl..]);
+            if let Ok(fp) = winter_fri::FriProof::read_from_bytes(&b) {
+                let mut p = orig.clone();
+                p.fri_proof = fp;
+                judge::<B, E, H>(cx, &format!("field:fri-layer-extra-row:layer{}", depth.min(1)), &p.to_bytes());
             }
         }
     }
